@@ -716,7 +716,12 @@ func (s *storage) Shrink(stopAfter time.Duration) bool {
 				anyFound = true
 			}
 			if !table.isFree && table.Len() == 0 {
-				s.archetypes[table.archetype].FreeTable(table)
+				archetype := &s.archetypes[table.archetype]
+				archetype.FreeTable(table)
+				// The targets are still alive, so their lookup entries are not dropped
+				// by target cleanup: detach the freed table from them and from the cache.
+				archetype.removeFromTargetIndices(table)
+				s.cache.removeTable(table)
 				anyFound = true
 			}
 		}
